@@ -20,7 +20,7 @@ fn main() {
 	let code = match args[1].as_str() {
 		"c19" => props::c19::main(&args[2..]),
 		"c17" => props::c17::main(&args[2..]),
-		"c02" | "c12" | "c13" => props::crash::main(&args[2..], args[1].as_str()),
+		"c02" | "c12" | "c13" | "c16" => props::crash::main(&args[2..], args[1].as_str()),
 		"c04t" => props::c04t::main(&args[2..]),
 		"c10" => props::c10::main(&args[2..]),
 		"c06" => props::c06::main(&args[2..]),
